@@ -355,99 +355,103 @@ def g_decodemap_index(chk, P, D, sk):
 
 
 def g_blockin_clamps(chk, P, D, sk):
-    F = P.need('vorbis_synthesis_blockin')
-    dom = cfg.dominators(F)
-    # trimming stores
-    trims = []
-    for e in sorted(F.pos):
-        nd = F.ex[e]
-        if nd['k'] == 'assign' and nd['op'] in ('-=', '+='):
-            mk = None
-            l = F.ex[F.strip_casts(nd['c'][0])]
-            if l['k'] == 'member' and l.get('record') == 'vorbis_dsp_state' and l['field'] in ('pcm_current', 'pcm_returned'):
-                trims.append((e, l['field'], nd['op']))
-    chk.require(len(trims) >= 2, 'vorbis_synthesis_blockin: granule trimming stores not found')
-    # K4: the trimmed amount is never negative
-    vals = {}
+    """pcm_returned <= pcm_current is an invariant of every decode-side function that stores either field (pairinv.py: a
+    relational analysis with affine upper bounds in the two fields, the half-rate shift made concrete; K4 supplies the
+    non-negativity of the amounts).  The granule trimming of vorbis_synthesis_blockin, the consumption in
+    vorbis_synthesis_read and the window moves of vorbis_synthesis_lapout are instances; the form of the clamps does not
+    matter (`if(extra>(cur-ret)<<hs)extra=(cur-ret)<<hs; cur-=extra>>hs;` or `avail=cur-ret; drop=extra>>hs;
+    if(drop>avail)drop=avail; cur-=drop;`)"""
+    import pairinv
+    REC, LO, HI = 'vorbis_dsp_state', 'pcm_returned', 'pcm_current'
+    fns = []
+    for k in sorted(D.results):
+        if not D.ctx[k].seen:
+            continue
+        F = P.fn[k]
+        if any((r, f) in ((REC, LO), (REC, HI)) for (r, f) in D.stored_fields(F)) and F.file.endswith('block.c'):
+            fns.append(F)
+    chk.require(len(fns) >= 3, f'only {len(fns)} decode-side functions store pcm_returned / pcm_current')
+    for F in fns:
+        # K4: non-negativity of every sub-expression of the stores to the two fields
+        want = set()
+        stores = []
+        for e in F.pos:
+            nd = F.ex[e]
+            if nd['k'] == 'assign':
+                l = F.ex[F.strip_casts(nd['c'][0])]
+                if l['k'] == 'member' and l.get('record') == REC and l.get('field') in (LO, HI):
+                    stores.append(e)
+                    for q in F.walk(nd['c'][1]):
+                        want.add(q)
+                elif l['k'] == 'ref' and nd['op'] == '-=':
+                    for q in F.walk(nd['c'][1]):
+                        want.add(q)
+        vals = {}
 
-    def obs(A, env, e, v):
-        if e in [t[0] for t in trims]:
-            vals[e] = absint.join(vals.get(e), A.peek(env, A.ex[e]['c'][1]))
-    A = D.make_analyzer('vorbis_synthesis_blockin')
-    A.observers.append(obs)
-    A.run()
-    for i, (e, fld, op) in enumerate(trims):
-        v = vals.get(e)
-        if op == '+=':
-            chk.ob(RULE, F.name, f'trim-amount-nonnegative:{fld}{op}#{i}', v is not None and v.lo >= 0, F.where(e), f'amount {v}')
-    # clamp before shrinking pcm_current; clamp after advancing pcm_returned
-    assigns = [e for e in F.pos if F.ex[e]['k'] == 'assign' and F.ex[e]['op'] == '=']
-    for i, (e, fld, op) in enumerate(trims):
-        if fld == 'pcm_current' and op == '-=':
-            ok = False
-            for a in assigns:
-                rhs = canon(P, F, F.ex[a]['c'][1], sk, depth=0)
-                if '.pcm_current-.pcm_returned' in rhs and F.pos[a][0] != F.pos[e][0]:
-                    conds = common.controlling_conditions(F, a)
-                    if any(pol and '>' in canon(P, F, c, sk, depth=0) and '.pcm_current-.pcm_returned' in canon(P, F, c, sk, depth=0)
-                           for c, pol in conds):
-                        # the clamp's test block dominates the store
-                        tb = [b for b in dom[F.pos[a][0]]]
-                        if any(F.pos[c][0] in dom[F.pos[e][0]] for c, pol in conds if '.pcm_current-.pcm_returned' in canon(P, F, c, sk, depth=0)):
-                            ok = True
-            chk.ob(RULE, F.name, f'end-trim-clamped-to-available#{i}', ok, F.where(e),
-                   'the amount is clamped to (pcm_current-pcm_returned)<<hs on the way to the store' if ok else
-                   'pcm_current is reduced without the clamp to the samples actually held')
-        if fld == 'pcm_returned' and op == '+=':
-            ok = False
-            for a in assigns:
-                l = F.ex[F.strip_casts(F.ex[a]['c'][0])]
-                r = F.ex[F.strip_casts(F.ex[a]['c'][1])]
-                if l['k'] == 'member' and l.get('field') == 'pcm_returned' and r['k'] == 'member' and r.get('field') == 'pcm_current':
-                    conds = common.controlling_conditions(F, a)
-                    if any(pol and canon(P, F, c, sk, depth=0) == '(.pcm_returned>.pcm_current)' for c, pol in conds) \
-                            and cfg.pos_dominates(F, e, a) is not None and F.pos[e][0] in dom[F.pos[a][0]]:
-                        ok = True
-            chk.ob(RULE, F.name, f'begin-trim-clamped-to-current#{i}', ok, F.where(e),
-                   'pcm_returned is clamped to pcm_current after the advance' if ok else 'pcm_returned may pass pcm_current')
-    # vorbis_synthesis_read
-    R = P.need('vorbis_synthesis_read')
-    st = [e for e in R.pos if R.ex[e]['k'] == 'assign' and R.ex[e]['op'] == '+=' and
-          R.ex[R.strip_casts(R.ex[e]['c'][0])].get('field') == 'pcm_returned']
-    chk.require(st, 'vorbis_synthesis_read: pcm_returned advance not found')
-    for e in st:
-        # every path to the advance leaves the test (pcm_returned+n > pcm_current) by its false edge, or the test (n) by its
-        # false edge (nothing to consume)
-        guard_edges = set()
-        nparam = {p['id'] for p in R.params if p['name'] == R.params[-1]['name']}
-        for b, blk in R.blocks.items():
-            t = blk.get('term')
-            if not t or t.get('cond') is None or len(blk['succs']) != 2:
-                continue
-            s_ = canon(P, R, t['cond'], sk, depth=0)
-            cn = R.ex[R.strip_casts(t['cond'])]
-            if '.pcm_returned+' in s_ and '>.pcm_current' in s_:
-                guard_edges.add((b, 0))        # the true edge (too much requested) must not lead to the advance
-            elif cn['k'] == 'ref' and cn['decl'].get('id') in nparam:
-                pass
-        tests = [b for (b, _) in guard_edges]
-        # forbid: reaching the advance without having evaluated the comparison, unless through the false edge of `n`
-        nfalse = set()
-        for b, blk in R.blocks.items():
-            t = blk.get('term')
-            if t and t.get('cond') is not None and len(blk['succs']) == 2:
-                cn = R.ex[R.strip_casts(t['cond'])]
-                if cn['k'] == 'ref' and cn['decl'].get('id') in nparam:
-                    nfalse.add((b, 1))
-        def edge_ok(b, si):
-            return (b, si) not in guard_edges and (b, si) not in nfalse
-        path = cfg.search(R, None, lambda n: n == e, lambda n: R.ex[n]['k'] == 'bin' and R.ex[n]['op'] == '>' and
-                          '.pcm_returned+' in canon(P, R, n, sk, depth=0), edge_ok)
-        # path found == the advance is reachable without passing the comparison (and not via n==0)
-        ok = bool(tests) and path is None
-        chk.ob(RULE, R.name, 'read-within-available', ok, R.where(e),
-               'the advance of pcm_returned is reached only past the test pcm_returned+n > pcm_current (false) or with n == 0' if ok
-               else 'pcm_returned can be advanced without the availability test', path=cfg.block_lines(R, path) if path else None)
+        def obs(A, env, e, v, stores=stores, want=want, vals=vals):
+            if e in stores or (A.ex[e]['k'] == 'assign' and A.ex[e]['op'] == '-='):
+                for q in A.F.walk(A.ex[e]['c'][1]):
+                    if q in want and A.ex[q]['k'] not in ('cast',):
+                        try:
+                            vals[q] = absint.join(vals.get(q), A.peek(env, q))
+                        except Exception:
+                            pass
+        A = D.make_analyzer(P.key(F))
+        A.observers.append(obs)
+        A.run()
+
+        def nonneg(q, vals=vals, F=F):
+            q = F.strip_casts(q)
+            v = vals.get(q)
+            return v is not None and v.lo >= 0
+        hs_ids = set()
+        for e, nd in F.ex.items():
+            if nd['k'] == 'decl':
+                for v in nd.get('vars', []):
+                    if v.get('init') is not None and 'id' in v:
+                        i = F.ex[F.strip_casts(v['init'])]
+                        if i['k'] == 'member' and i.get('field') == 'halfrate_flag':
+                            hs_ids.add(v['id'])
+
+        def is_hs(q, F=F, hs_ids=hs_ids):
+            nd = F.ex[q]
+            return (nd['k'] == 'ref' and nd['decl'].get('id') in hs_ids) or (nd['k'] == 'member' and nd.get('field') == 'halfrate_flag')
+        problems, nst = {}, 0
+        bad_exits = {}
+        amt = {}
+        for k_ in (0, 1):
+            pi = pairinv.PairInv(P, F, REC, LO, HI, k_, nonneg, is_hs).run()
+            nst = max(nst, pi.stores)
+            for e, okk in pi.amount_nn.items():
+                amt[e] = amt.get(e, True) and okk
+            for (e, msg) in pi.problems:
+                problems.setdefault(e, msg + f' (half-rate flag {k_})')
+            for (e, st) in pi.exits:
+                if st.touched and not st.inv:
+                    bad_exits.setdefault(e, k_)
+        # trimmed amounts are never negative (K4)
+        for i, e in enumerate(sorted(stores, key=lambda x: F.ex[x]['loc'])):
+            nd = F.ex[e]
+            fld = F.ex[F.strip_casts(nd['c'][0])]['field']
+            if nd['op'] == '+=':
+                v = vals.get(F.strip_casts(nd['c'][1]))
+                if F.name == 'vorbis_synthesis_blockin':
+                    okn = (v is not None and v.lo >= 0) or amt.get(e, False)
+                    chk.ob(RULE, F.name, f'trim-amount-nonnegative:{fld}{nd["op"]}#{i}', okn, F.where(e),
+                           f'amount {v}' + ('' if (v is not None and v.lo >= 0) or not okn else
+                                            '; non-negative by the relational analysis (clamped between 0 and pcm_current-pcm_returned)'))
+        # an unbounded update is a defect only when the invariant is not re-established before the function returns
+        # (`ret+=n; if(ret>cur)ret=cur;` is fine); the updates are named in the report
+        if not bad_exits:
+            problems = {}
+        first = sorted(problems)[0] if problems else (sorted(bad_exits)[0] if bad_exits else None)
+        ok = not bad_exits
+        chk.ob(RULE, F.name, 'returned-never-passes-current', ok, F.where(first) if first else F.where(),
+               f'{nst} stores to pcm_returned / pcm_current; pcm_returned <= pcm_current holds at every return that follows one, for '
+               'half-rate off and on' if ok else
+               ('; '.join(sorted(set(problems.values())))[:300] if problems else
+                f'pcm_returned <= pcm_current is not re-established before the return on line {F.loc(first)} '
+                f'(half-rate flag {bad_exits[first]})'))
 
 
 def g_halfrate(chk, P, D, sk):
